@@ -14,6 +14,10 @@
 //! case to C28-F3 (operator defects inherited from C21/C22/C23 inside the definitions) only if the engine returns the SAME rows
 //! for both renderings — then every reference did yield what the engine computes for the definition.
 //!
+//! References inside subquery expressions: sqlgen's `cte` stratum places references in FROM clauses only, so every third
+//! statement gets one more conjunct in the WHERE clause of its body — `[NOT] EXISTS (SELECT 1 FROM w AS xs…)` or
+//! `(SELECT COUNT(*) FROM w AS xs…) >= n` over one of its top-level CTEs (tag `f:cte_in_subquery`).
+//!
 //! Shadow statements (`cte_shadow`): sqlgen gives every select item a fresh alias, so a reference bound to the wrong definition
 //! fails with "column not found" instead of returning rows.  Every second shadow case is therefore re-spelled so that the inner
 //! definition's columns carry the OUTER definition's column names (positions — and with them the plan — unchanged), as in A.16.
@@ -184,6 +188,31 @@ fn inline_shadow(q: &QueryExpr) -> Option<String> {
     Some(format!("{}{}{}", head, new_derived, tail))
 }
 
+/// one more WHERE conjunct that reads a top-level CTE inside a subquery expression
+fn add_cte_subquery(r: &mut Rng, q: &mut QueryExpr, n: usize) -> bool {
+    if q.with.is_empty() { return false; }
+    let k = r.below(q.with.len() as u64) as usize;
+    let name = q.with[k].0.clone();
+    let Body::Select(s) = &mut q.body else { return false };
+    if s.from.is_none() { return false; }
+    let rel = Rel::Cte { idx: k, name, alias: format!("xs{}", n) };
+    let e = match r.below(3) {
+        0 | 1 => {
+            let sub = Select { from: Some(rel), where_: None, group: None, having: None, proj: vec![(Expr::lit_i(1), format!("qs{}", n))], distinct: false };
+            Expr::Exists(Box::new(QueryExpr::of(Body::Select(Box::new(sub)))), r.chance(1, 3))
+        }
+        _ => {
+            let call = AggCall { f: AggFn::CountStar, arg: None, distinct: false };
+            let sub = Select { from: Some(rel), where_: None, group: Some(Group { keys: vec![], aggs: vec![call.clone()], sets: None }), having: None,
+                               proj: vec![(Expr::Col { i: 0, sql: call.sql() }, format!("qs{}", n))], distinct: false };
+            let bound = *r.pick(&[0i64, 1, 2, 5, 20]);
+            Expr::bin(*r.pick(&[BinOp::Ge, BinOp::Lt]), Expr::Scalar(Box::new(QueryExpr::of(Body::Select(Box::new(sub))))), Expr::lit_i(bound))
+        }
+    };
+    s.where_ = Some(match s.where_.take() { Some(w) => Expr::and(w, e), None => e });
+    true
+}
+
 fn run_one(case: &Value) -> Value {
     let mut out = run_case(case);
     if let Some(ns) = case["inline_sql"].as_str() {
@@ -221,7 +250,8 @@ pub fn main(o: &Opts) {
         if attempts % per_cat == 0 { cat = gen_catalog(&mut r, &copts); }
         attempts += 1;
         let mut qr = r.fork();
-        let g = Gen::new(&mut qr, &cat, &gopts).generate(n);
+        let mut g = Gen::new(&mut qr, &cat, &gopts).generate(n);
+        if n % 3 == 2 && add_cte_subquery(&mut r, &mut g.q, n) { g.tags.push("f:cte_in_subquery".into()); }
         let one = [cfgs[n % cfgs.len()].clone()];
         let mut case = make_case(&prop, &cat, &g.q, &g.tags, g.engine_defined, &one, false);
         let mut defs = Defs::new();
